@@ -28,6 +28,10 @@ class BuildModel:
             res.missing("W-anchor", MB)
             return
         self.fields = [x["name"] for x in adt["variants"][0]["fields"]]
+        if "data" not in self.fields or "has_run" not in self.fields:
+            # the clean/dirty typestate is anchored in these two fields: a different state representation needs its own rule
+            res.missing("T-anchor", "MessageBuilder fields `data` and `has_run` (found %s): the buffer-reuse discipline changed shape" % self.fields)
+            return
         self.i_data = self.fields.index("data")
         self.i_run = self.fields.index("has_run")
         self.selfobj = mk("mem", fa.start_val(1, 0))
@@ -310,6 +314,9 @@ def rules_new_clear(prog, res):
         fa = FA(f, prog)
         adt = prog.adts.get(MB)
         fields = [x["name"] for x in adt["variants"][0]["fields"]]
+        if "data" not in fields or "has_run" not in fields:
+            res.missing("T-new", "MessageBuilder fields `data` and `has_run`")
+            return
         v = fa.end_val(0, f.return_blocks()[0])
         ok = False
         d = show(v, fa.names)
